@@ -333,7 +333,12 @@ let c17 (payload : string) : string =
       else MFail (nat_of_int (match t with "svc" -> 1 | "lost" -> 2 | _ -> 3))) (String.split_on_char ',' vs) in
     let order = List.map (fun t -> nat_of_int (int_of_string t)) (String.split_on_char ',' os) in
     let ename e = (match int_of_nat e with 1 -> "svc" | 2 -> "lost" | _ -> "slow") in
-    let show_reply ok r = if ok then (match r with Some x -> string_of_int (int_of_nat x) | None -> "none") else "*" in
+    (* which of several successful servers' replies the caller ends up with depends on their completion order,
+       which the harness forces by delays only: both sides print "S" for "the reply of a server that succeeded" *)
+    let oks = List.filter_map (fun x -> match x with MOk r -> Some (int_of_nat r) | _ -> None) v in
+    let show_reply ok r = if ok then (match r with
+        | Some x -> if List.mem (int_of_nat x) oks then "S" else string_of_int (int_of_nat x)
+        | None -> "none") else "*" in
     (match op with
      | "B" -> let (errs, rep) = broadcast v order in
        Printf.sprintf "%s reply=%s" (if errs = [] then "nil" else "err") (show_reply (errs = []) rep)
